@@ -132,6 +132,21 @@ CLAIMED["C04"] = dict(
          "fixed buffer has a model and correspondence but its theorem is the GPString version. gp_str_to_valid is C06.",
     ref="6 C04")
 
+CLAIMED["C11"] = dict(
+    technique="T-gen (model regenerated every run by executing the compiled functions over all 0x110000 code points) + kernel-checked table equality with the vendored UCD + Lean theorems for the string drivers and the case-orbit walk",
+    text="Theorems: the regenerated upper/lower/title tables EQUAL the UCD Simple_*case_Mapping tables (kernel-checked list "
+         "equality of canonical range tables => equal on every code point); scalar values map to scalar values; "
+         "gp_str_to_upper/lower/title of valid UTF-8 = the UTF-8 of the pointwise UCD mapping (valid, same number of code "
+         "points); gp_str_equal_case holds exactly when the simple case foldings (UCD scf, status C+S) of the two code point "
+         "lists are equal - proved from per-class kernel checks over all 2,878 case-variant code points (the implementation's "
+         "fold walks each class in increasing cyclic order; members share one scf value) plus a symbolic lemma for the walk on "
+         "2-, 3- and 4-element orbits; hence an equivalence relation.",
+    note="Trusted: the extractor (runs the compiled code, ~40 lines of C + the Python range compressor), the vendored UCD "
+         "(perl 5.36 unicore, Unicode 14.0; cross-checked with CPython 3.13 / 15.1: identical on every single-code-point "
+         "result), the C07 codec theorems. The fold and scf lookups used in the kernel checks are balanced search trees emitted "
+         "by the generator (the model of gp_u32_simple_fold IS that tree; tied to the code by the correspondence run).",
+    ref="6 C11")
+
 PENDING = {}
 
 def main():
